@@ -142,6 +142,17 @@ let run (input : string) (obs : string) : string * string =
        | _ -> "fail:well-typed-document-rejected") in
     (model, verdict)
   | "econf" | "table" -> Enginesuite.run input obs
+  | "oplbig" ->
+    (* linear time (C12): the document with 4k repetitions may take 4x the time of the one with k; a factor above 12
+       together with more than 0.8 s is superlinear beyond any measurement noise.  The class names the construct. *)
+    let shape = next t in
+    (match words obs with
+     | [t1; t2; _bytes] ->
+       let t1 = float_of_string t1 and t2 = float_of_string t2 in
+       if t2 > 12.0 *. (max t1 1000.0) && t2 > 800000.0
+       then ("SKIP", "fail:parse-time-superlinear class=D20-" ^ shape)
+       else ("SKIP", "pass")
+     | _ -> ("SKIP", "na"))
   | "tcheck" ->
     (* a check on a declared relation of an accepted document over conforming relationships: never a schema error (C11) *)
     let (m, _) = Enginesuite.run ("echeck " ^ String.concat " " t.l) obs in
